@@ -9,7 +9,7 @@
      E   a call ends:    id, res, d, fresh         (res = digest of verdict class / State bytes / update JSON;
                                                     fresh = no accumulator proof of an element of the update lives in input memory)
      A   audit:          mem, d                    (inputs looked at while no call is running)
-     M   update:         id, fn, op, case, mem, d, d1, res
+     M   update:         id, fn, op, case, mem, d, d1, res, who, frozen, regs
                                                    (UpdateElementProof on ONE element of one copy of the inputs: mem names
                                                     the cell = that element's proof memory up to its capacity, d / d1 its
                                                     digest before / after, fn = "upd:" + content of the element before,
@@ -17,6 +17,16 @@
                                                     applied.  After every M the harness audits the neighbouring cells of
                                                     the same copy, after every pass over a copy the cells of the source
                                                     the copies were made from, at the end every cell of every copy.)
+
+     P   place:          mem, who, frozen, regs, by
+                                                 (ownership of backing arrays, Purity!Place: the memory that backs mem up to
+                                                  capacity, as stretches <<lo, hi>> of addresses (order-preserving ranks of
+                                                  the real addresses, per segment).  by = "publish": who is an update that
+                                                  ApplyBlock / RevertBlock just returned, mem names it, regs are the proof
+                                                  arrays reachable from it, frozen; by = "track": mem is the cell of one
+                                                  element a holder just copied; every M line carries the same members for
+                                                  the cell as it is AFTER the refresh)
+     L   look:           mem, d                    (a returned update, deep digest, looked at again after later refreshes)
 
    in the order in which the events happened.  A Key of Purity is <<fn, case>>
    where case = content hash of (state bytes, block bytes, supplement bytes).
@@ -64,13 +74,29 @@ EndLine(t, ln) ==
 
 \* the copies of one case (independently allocated, decoded through the multiproof form, decoded plainly, JSON,
 \* DeepCopy/Copy, Share()d views) are updated under the same keys: Purity!MutSameResult is "obtained how is irrelevant"
+Regs(t) == {<<t.regs[i][1], t.regs[i][2]>> : i \in 1..Len(t.regs)}
+PlaceOf(t) == [mem |-> t.mem, who |-> t.who, frozen |-> t.frozen, regs |-> Regs(t)]
 MutLine(t, ln) ==
-  LET e == [key |-> t.fn, mem |-> t.mem, d |-> t.d, d1 |-> t.d1, res |-> t.res] IN
+  LET e == [key |-> t.fn, mem |-> t.mem, d |-> t.d, d1 |-> t.d1, res |-> t.res]
+      p == PlaceOf(t) IN
   /\ Check(t.case = cs, ln, "H:event filed under another case")
   /\ Check(MutNotInUse(st, e), ln, "H:update of memory a call is running on")
   /\ Check(MutCellSame(st, e), ln, "V:cell-changed-before-update " \o t.op)
   /\ Check(MutSameResult(st, e), ln, "V:update-result-differs " \o t.op)
-  /\ st' = AfterMut(st, e)
+  \* the refreshed cell is memory of its holder alone: not the update's, not another holder's, not a neighbour's
+  /\ Check(PlaceOK(st, p), ln, "V:refresh-shares-array " \o t.op)
+  /\ st' = AfterPlace(AfterMut(st, e), p)
+
+PlaceLine(t, ln) ==
+  LET p == PlaceOf(t) IN
+  /\ Check(t.case = cs, ln, "H:event filed under another case")
+  /\ Check(PlaceOK(st, p), ln, "V:array-shared " \o t.by)
+  /\ st' = AfterPlace(st, p)
+
+LookLine(t, ln) ==
+  LET e == [mem |-> t.mem, d |-> t.d] IN
+  /\ Check(LookOK(st, e), ln, "V:result-changed-after-return look")
+  /\ st' = [AfterLook(st, e) EXCEPT !.seen = (e.mem :> e.d) @@ @]
 
 AuditLine(t, ln) ==
   LET e == [mem |-> t.mem, d |-> t.d] IN
@@ -91,6 +117,8 @@ Next ==
              [] t.ev = "E" -> EndLine(t, l + 1)
              [] t.ev = "A" -> AuditLine(t, l + 1)
              [] t.ev = "M" -> MutLine(t, l + 1)
+             [] t.ev = "P" -> PlaceLine(t, l + 1)
+             [] t.ev = "L" -> LookLine(t, l + 1)
              [] OTHER -> Reject(l + 1, "H:unknown event") /\ st' = st
         /\ Check(~LastOfSegment(l + 1) \/ Quiet(st'), l + 1, "H:segment ends with a call still open")
         /\ l' = l + 1 /\ UNCHANGED cs
